@@ -142,6 +142,35 @@ pub fn profile(name: &str) -> Option<Profile> {
             rebuild_checks: true,
             ..base
         },
+        // C19 on two instances: failing exchanges come from the transport
+        // (lost requests and replies, an unreachable instance, a cut link)
+        // as well as from refusals by the other side.
+        "c19net" => Profile {
+            name: "c19net",
+            oracles: Oracles { c19: true, ..Default::default() },
+            gen_cfg: GenCfg {
+                w_config: 25,
+                w_entitlement: 22,
+                w_removal: 14,
+                w_keyroll: 10,
+                w_maintenance: 18,
+                w_clock: 8,
+                w_status: 8,
+                w_partition: 6,
+                pump_pct: 70,
+                allow_restart: false,
+                ..GenCfg::default()
+            },
+            min_ops: 20,
+            max_ops: 50,
+            net: Some(crate::net::NetCfg {
+                drop_request_permille: 80,
+                drop_response_permille: 80,
+                duplicate_permille: 40,
+                late_copy_permille: 0,
+            }),
+            ..base
+        },
         // "netreplay" additionally delivers copies of requests that were
         // answered long ago, behind later requests of the same sender. The
         // transport (one HTTPS request per exchange, no re-sending of the
